@@ -364,6 +364,12 @@ impl Engine for ArenaEngine {
         Some(placement_sweep(self.prop, tier, idx, nworkers))
     }
     fn replay_sweep(&self, item: &Value) -> Vec<String> {
+        if let Some(v) = item["sentinel_variant"].as_str() {
+            return match run_sentinel_variant(v) {
+                Ok((_, bad, _)) => bad,
+                Err(e) => vec![format!("ENGINE: {e}")],
+            };
+        }
         if let Some(n) = item["ctor_n"].as_u64() {
             return ctor_table().into_iter().filter(|(k, _, _)| *k as u64 == n).filter_map(|(_, _, m)| m).collect();
         }
@@ -510,8 +516,53 @@ pub fn placement_sweep(prop: &'static str, tier: Tier, idx: u32, nworkers: u32) 
         extra.insert("constructor_table_sample".to_string(), json!(table.iter().filter(|t| t.0 == 3 || t.0 == 16).map(|t| t.1.clone()).collect::<Vec<_>>()));
         out.extra = extra;
     }
+    if prop == "C04" && idx == 0 {
+        sentinel_probe(&mut out);
+    }
     if idx == 0 {
         out.samples.push(json!({"sweep_item": "fresh Bump<M>(capacity), alloc_layout(pad,1), alloc_layout(size,align), try_alloc_layout(size,align), alloc_layout(0,align)", "example": describe_case(&sweep_case(3, 100, 1, 17, 24, 5).unwrap(), false)}));
     }
     out
+}
+
+
+/// C04 link-layout probe (DESIGN §9.5): zero-sized requests on chunk-less arenas return the address of
+/// bumpalo's static empty sentinel, whose placement is fixed per binary. /verif/sentinel is linked in
+/// four variants with 0/8/16/24 bytes of data in front of bumpalo's statics, so that a sentinel that is
+/// only 8-byte aligned lands on an address = 8 (mod 16) in two of them.
+pub fn run_sentinel_variant(v: &str) -> Result<(u64, Vec<String>, Vec<String>), String> {
+    let exe = format!("{}/sentinel/target_{v}/release/vsentinel", verif_root());
+    let out = std::process::Command::new(&exe).output().map_err(|e| format!("cannot run {exe}: {e}"))?;
+    let text = String::from_utf8_lossy(&out.stdout).to_string();
+    if !text.contains("SENTINEL-SUMMARY") {
+        return Err(format!("{exe} did not finish (status {:?})", out.status.code()));
+    }
+    let lines: Vec<String> = text.lines().filter(|l| l.starts_with("SENTINEL ")).map(|l| l.to_string()).collect();
+    let bad: Vec<String> = lines.iter().filter(|l| l.ends_with("MISALIGNED")).cloned().collect();
+    Ok((lines.len() as u64, bad, lines))
+}
+
+pub fn sentinel_probe(out: &mut SweepOut) {
+    let mut residues = vec![];
+    let mut errors = vec![];
+    for v in ["nopad", "pad8", "pad16", "pad24"] {
+        match run_sentinel_variant(v) {
+            Ok((n, bad, lines)) => {
+                out.evaluations += n;
+                out.nontrivial += n;
+                if let Some(l) = lines.iter().find(|l| l.contains("min_align=16 align=1 alloc_layout")) {
+                    residues.push(format!("{v}: {}", l.split("ptr=").nth(1).unwrap_or("")));
+                }
+                if let Some(b) = bad.first() {
+                    out.viol.push((format!("link variant '{v}': zero-sized request on an arena that holds no memory: {b}"), json!({"sentinel_variant": v})));
+                }
+            }
+            Err(e) => errors.push(e),
+        }
+    }
+    out.extra.insert("sentinel_link_variants".into(), json!(residues));
+    if !errors.is_empty() {
+        out.extra.insert("engine_errors".into(), json!(errors.len()));
+        out.extra.insert("engine_error_list".into(), json!(errors));
+    }
 }
